@@ -46,7 +46,10 @@ import Thanos.Model.ShuffleShard
               tenants = `,`-list of hex names / patterns (`-` = the empty name), `~` = no tenant list (default hashring)
       reqs    `;`-list of <tenanthex>:<tab>/<tab>/…   one table per configuration: filepath.Match of
               each of its patterns against the tenant, a string over y n b (ErrBadPattern), `-` if empty
-    -> `;`-list: index of the chosen hashring | none | err | <i>?err (map-order dependent)
+              optional third field of a configuration: the number of nodes of its (hashmod) hashring, default 1;
+              optional third field of a request: the replica index n, default 0
+    -> `;`-list: index of the chosen hashring | <i>!<size> (hashring i was selected and has only <size> nodes:
+       its "insufficient nodes" error) | none | err | <i>?err (map-order dependent)
   routem <cfgs> <req>                       one uncached request (malformed-pattern stream)
 
   mod <nq> <addrs> <series>                 hashmod ring; addrs = `,`-list of <addrhex>
@@ -165,6 +168,15 @@ def parseCfgs (s : String) : Option (List (MType × List String)) :=
   (listOf '|' s).mapM fun t =>
     match splitChar ':' t with
     | [ty, ts] => (parseMType ty).map fun m => (m, if ts = "~" then [] else splitChar ',' ts)
+    | [ty, ts, _] => (parseMType ty).map fun m => (m, if ts = "~" then [] else splitChar ',' ts)
+    | _ => none
+
+/-- the sizes of the sub-hashrings: third field of a configuration token, 1 when absent -/
+def parseSizes (s : String) : Option (List Nat) :=
+  (listOf '|' s).mapM fun t =>
+    match splitChar ':' t with
+    | [_, _] => some 1
+    | [_, _, sz] => parseNat? sz
     | _ => none
 
 open Thanos.MultiRing in
@@ -175,7 +187,7 @@ def parseGlobTab (s : String) : Option (List GlobRes) :=
 open Thanos.MultiRing in
 /-- `<tenanthex>:<tab>/<tab>/…` one table per configuration -/
 def parseReq (cfgs : List (MType × List String)) (s : String) : Option (String × List Cfg) :=
-  match splitChar ':' s with
+  match (splitChar ':' s).take 2 with
   | [t, tabs] =>
     match (splitChar '/' tabs).mapM parseGlobTab with
     | some gs =>
@@ -191,6 +203,21 @@ def showRoute : Route → String
   | .none => "none"
   | .err => "err"
   | .ringOrErr i => s!"{i}?err"
+
+/-- the replica index of a request: third field, 0 when absent -/
+def parseReqN (s : String) : Option Nat :=
+  match splitChar ':' s with
+  | [_, _] => some 0
+  | [_, _, n] => parseNat? n
+  | _ => none
+
+open Thanos.MultiRing in
+def showAns : Ans → String
+  | .served i => toString i
+  | .insufficient i s => s!"{i}!{s}"
+  | .noRing => "none"
+  | .matchErr => "err"
+  | .servedOrErr i => s!"{i}?err"
 
 open Thanos.MultiRing in
 def viewOf (reqs : List (String × List Cfg)) (tenant : String) : List Cfg :=
@@ -354,12 +381,13 @@ def handle : List String → String
           | _, _ => none
         ketG true rf rf sub final vs
     | _, _, _, _, _, _, _ => "bad-op"
-  | ["route", cfgs, reqs] =>
-    match parseCfgs cfgs with
+  | ["route", cfgsTok, reqs] =>
+    match parseCfgs cfgsTok with
     | some cfgs =>
-      match (listOf ';' reqs).mapM (parseReq cfgs) with
-      | some rs => joinWith ";" ((MultiRing.getNSeq (viewOf rs) [] (rs.map (·.1))).map showRoute)
-      | none => "bad-op"
+      match (listOf ';' reqs).mapM (parseReq cfgs), (listOf ';' reqs).mapM parseReqN, parseSizes cfgsTok with
+      | some rs, some ns, some sizes =>
+        joinWith ";" ((MultiRing.getNSeqN (viewOf rs) sizes [] ((rs.map (·.1)).zip ns)).map showAns)
+      | _, _, _ => "bad-op"
     | none => "bad-op"
   | ["routem", cfgs, req] =>
     match parseCfgs cfgs with
